@@ -95,7 +95,8 @@ StopRestartTok(fix) ==
 Codes3 == {[a |-> <<x>>, b |-> <<y>>, c |-> <<z>>] : x, y, z \in {0, 1}}
 
 WorkloadsDag == {Chain3(c, AllFixed) : c \in Codes3}
-                  \cup {Chain3([a |-> <<0>>, b |-> <<9>>, c |-> <<0>>], AllFixed)}      \* b's process is killed (no marker, stale pid file)
+                  \cup {Chain3([a |-> <<0>>, b |-> <<9>>, c |-> <<0>>], AllFixed)}
+                  \cup {Chain3([a |-> <<0>>, b |-> <<8>>, c |-> <<0>>], AllFixed)}      \* b's process cannot be started      \* b's process is killed (no marker, stale pid file)
                   \cup {Diamond([a |-> <<0>>, b |-> <<x>>, c |-> <<y>>, d |-> <<0>>], AllFixed) : x, y \in {0, 1}}
 WorkloadsTok == {Tok(3, 2, 2, 1, Ok({"a", "b", "c"}), AllFixed), Tok(3, 1, 1, 3, Ok({"a", "b", "c"}), AllFixed),
                  Tok(1, 1, 1, 1, Ok({"a", "b", "c"}), AllFixed),
